@@ -165,3 +165,33 @@ def converged_from_counter(expr: ast.AST, counter: str, cap: str) -> Optional[bo
     if op is ast.LtE:
         return k0 == 2
     return False
+
+
+CACHE_DECORATORS = ("method_cache", "lru_cache", "cache", "cached_property", "functools.lru_cache", "functools.cache", "functools.cached_property")
+
+
+def cache_on_mutable_state_rule(ctx: Ctx, classes: Iterable[ClassInfo], rule: str, extra_attrs: Iterable[str] = ()) -> int:
+    """A memoised method (lru_cache / method_cache / …) is keyed by its arguments only.  If it reads an instance attribute that some method other
+    than __init__ assigns (state that changes after construction: a seed filled in lazily, a table installed by the last training run), the cached
+    value outlives the change.  PASS for every method that reads such state and is not memoised; VIOLATION for one that is."""
+    n = 0
+    for C in classes:
+        mutable = set(extra_attrs)
+        for m in C.methods.values():
+            if m.name == "__init__":
+                continue
+            for a in ast.walk(m.node):
+                if isinstance(a, ast.Attribute) and isinstance(a.ctx, ast.Store) and isinstance(a.value, ast.Name) and a.value.id == getattr(m, "self_name", "self"):
+                    mutable.add(a.attr)
+        for m in C.methods.values():
+            sn = getattr(m, "self_name", "self")
+            reads = sorted({a.attr for a in ast.walk(m.node) if isinstance(a, ast.Attribute) and isinstance(a.ctx, ast.Load) and isinstance(a.value, ast.Name)
+                            and a.value.id == sn and a.attr in mutable})
+            if not reads:
+                continue
+            n += 1
+            cached = [d for d in m.decorators if d.split("(")[0] in CACHE_DECORATORS]
+            ctx.check(not cached, rule, m, m.node, f"{m.name}: reads state that changes after construction and is not memoised", str(reads),
+                      f"`{m.name}` is decorated with {cached} but reads {reads}, which another method assigns after construction: the cache is keyed by the arguments only, "
+                      "so a value computed before the change is served after it")
+    return n
